@@ -15,12 +15,20 @@ GEN     `tsig msgs` (real Pack) -> Gen_Tsig: message x 7 algorithm spellings x 2
         timers-only x original id =/# id x 4 error/other-data cases x 4 fudge/time cases -> `tsig replay`:
         real TsigGenerate MAC = HMAC(spec digest), output = spec layout; real verification
         (dns.VerifTsigVerifyAt, exact clock) of spec octets + stdlib MAC at now = time + {-f-1,-f,-1,0,1,f,f+1}.
-TV      `tsig record alter`: messages signed by the real code, then every single-bit alteration, 24 single
-        field alterations of the TSIG record, alterations of secret / request MAC / timers-only / clock,
+TV      `tsig record alter`: messages signed by the real code (every algorithm spelling at least twice per run),
+        then EVERY single-bit alteration of the complete signed octets (message, TSIG owner, type, class, TTL,
+        RDLENGTH, every RDATA field), 24 single field alterations of the TSIG record, alterations of secret / request MAC / timers-only / clock,
         unsigned variants, through VerifTsigVerifyAt (library's own secret table) and the public TsigVerify
         (wall clock, times >= 300 s from the window edges) -> Trace_Tsig emits what the specification reads
         in each octet string (digest input, MAC, time verdict) -> `tsig judge` fills in crypto/hmac and compares
         the verdicts both ways.
+
+Known finding (known-findings.d/C11.txt):
+  tsig/verify:accepts-invalid:tsig-class-altered
+      tsigBuffer digests the constant ClassANY, not the CLASS of the TSIG record as received (RFC 8945 4.3.3): a
+      signed message whose TSIG class is altered (255 -> 254, any of the 16 bits) still verifies.  Seen by TV (bit
+      and field:class-in events) and CHAINS (alter_class on the first envelope).  The TTL, the other header field
+      among the TSIG variables, IS digested from the wire (mutant tsig-ttl-not-digested = seeded change C11-2).
 
 Mutants (checks/mutants/C11, each must give exit 1):
   digest-omits-error-otherlen   GEN (generate:mac-is-not-hmac-of-rfc-digest), TV (base event: accepts-invalid:mac)
@@ -30,6 +38,7 @@ Mutants (checks/mutants/C11, each must give exit 1):
   name-not-lowercased           GEN (Key.Example. / HMAC-SHA256. vectors), TV (Mixed.Case.Key.)
   window-off-by-one             GEN (now = time +/- fudge)
   timers-only-ignored           GEN (timers-only vectors), CHAINS stay green (self-consistent) -- GEN is what bites
+  tsig-ttl-not-digested         TV (bit events on the 32 TTL bits, field:ttl-1), CHAINS (alter_ttl on the first envelope)
 """
 import os, json, threading
 import vp
@@ -110,7 +119,7 @@ def run(ctx):
         vp.parallel([
             lambda: chains(ctx, binp, 4, 2),
             lambda: gen(ctx, binp, 8, [ctx.seed % 8, (ctx.seed + 3) % 8]),
-            lambda: tv(ctx, binp, 5, 2),
+            lambda: tv(ctx, binp, 7, 2),
         ])
     else:
         vp.parallel([
@@ -121,8 +130,10 @@ def run(ctx):
     ctx.assumptions += [
         "HMAC values are not decided by the specification: crypto/hmac is applied to the specification's digest input",
         "hmac-md5 (RFC 8945 optional, 'no longer supported' by the library): a correct HMAC-MD5 may be accepted or refused",
-        "TSIG records with a class other than ANY, a TTL other than 0, RDATA cut after the original-id / error field, or octets "
-        "after the record: RFC 8945 does not fix the receiver's behaviour; no verdict asserted (the codec is C01/C02)",
+        "class and TTL of the TSIG record are TSIG variables digested as received (RFC 8945 4.3.3): altering them after signing "
+        "must be rejected; a message whose MAC does cover an odd class / TTL may be accepted or refused (RFC 8945 5.2: FORMERR)",
+        "TSIG RDATA cut after the original-id / error / other-len field, or octets after the record: RFC 8945 does not fix the "
+        "receiver's behaviour and the library's codec reads missing trailing fields as zero; no verdict asserted (codec: C01/C02)",
         "the ID of the signed message when the TSIG's original id differs from the message id: either (AMBIG)",
         "request MACs have >= 10 octets (RFC 8945 5.2.2.1); signing time and fudge are non-zero (zero means 'fill in' to TsigGenerate)",
         "the library's secret table is keyed by spelling: acceptance of a valid MAC is asserted when the key name on the wire is "
